@@ -72,7 +72,7 @@ Lemma children_ttouch : forall t i q, children (ttouch t (i :: q)) = upd (childr
 Proof. intros [y|f e cs|cs|mem cs] i q; cbn [ttouch children]; try reflexivity. unfold upd. destruct i; reflexivity. Qed.
 
 Lemma tget_tset_scalar : forall pre t p x y, tget t pre = Some (NScalar y) ->
-  tget (tset t p x) pre = Some (NScalar (if path_eqb p pre then Some x else y)).
+  tget (tset t p x) pre = Some (NScalar (if path_eqb p pre then x else y)).
 Proof.
   induction pre as [|j pre IH]; intros t p x y H.
   - cbn [tget] in H. injection H as ->. destruct p as [|i q]; reflexivity.
@@ -133,7 +133,7 @@ Qed.
 (* ---- the log, read naively: last Set_ at the leaf; member of the last event inside the union ---- *)
 
 Definition step_vs (p : path) (cur : option val) (e : event) : option val :=
-  match e with Set_ q x => if path_eqb q p then Some x else cur | Clear _ => cur end.
+  match e with Set_ q x => if path_eqb q p then x else cur | Clear _ => cur end.
 Definition step_as (u : path) (cur : option nat) (e : event) : option nat := through u (event_path e) cur.
 
 Lemma replay_scalar : forall E t pre y, tget t pre = Some (NScalar y) ->
